@@ -83,10 +83,13 @@ fn rate_of(version: u32) -> String {
 
 /// A currency document of version `v`: valid JSON in the format the endpoint serves.
 pub fn document(v: u32, size_class: u32) -> Vec<u8> {
+    // Lengths differ from version to version (in both directions), so that a
+    // later document can be shorter than what an earlier, failed transfer left
+    // behind somewhere.
     let pad = match size_class {
-        0 => 0,
-        1 => 6_000,
-        _ => 40_000,
+        0 => (v as usize * 37) % 150,
+        1 => 4_000 + (v as usize * 1_231) % 4_000,
+        _ => 30_000 + (v as usize * 7_919) % 20_000,
     };
     let filler: String = (0..pad).map(|i| (b'a' + ((i + v as usize) % 26) as u8) as char).collect();
     let s = format!(
@@ -100,9 +103,11 @@ pub fn document(v: u32, size_class: u32) -> Vec<u8> {
 }
 
 fn error_page(status: u32) -> Vec<u8> {
+    // Some error pages are longer than a small document, some shorter.
+    let filler = "<!-- padding -->".repeat(((status as usize) % 7) * 40);
     format!(
-        "<html><head><title>{0}</title></head><body><h1>{0} error</h1><p>this is not currency data</p></body></html>\n",
-        status
+        "<html><head><title>{0}</title></head><body><h1>{0} error</h1><p>this is not currency data</p>{1}</body></html>\n",
+        status, filler
     )
     .into_bytes()
 }
@@ -748,7 +753,7 @@ impl Harness for C20 {
             no_cache_dir: rng.chance(1, 40),
         };
         let doc_size = *rng.pick(&[0u32, 0, 1, 1, 2]);
-        let doc_len = document(0, doc_size).len() as u32;
+        let doc_len = document(9, doc_size).len() as u32;
         // The full load() costs ~40 ms: one history in eight uses it.
         let full = rng.chance(1, 8);
         let nruns = 1 + rng.below(4) as usize;
